@@ -256,3 +256,28 @@ def guarded(fn: Callable, *a, **kw):
 
 def exc_name(e: BaseException) -> str:
     return type(e).__name__
+
+
+class CaseTimeout(Exception):
+    pass
+
+
+class time_limit:
+    """Abort a single case that runs away (e.g. a non-terminating loop in mutated code)."""
+
+    def __init__(self, seconds: float):
+        self.seconds = seconds
+
+    def _raise(self, *a):
+        raise CaseTimeout(f"case exceeded {self.seconds}s")
+
+    def __enter__(self):
+        import signal
+        self.old = signal.signal(signal.SIGALRM, self._raise)
+        signal.setitimer(signal.ITIMER_REAL, self.seconds)
+
+    def __exit__(self, *a):
+        import signal
+        signal.setitimer(signal.ITIMER_REAL, 0)
+        signal.signal(signal.SIGALRM, self.old)
+        return False
